@@ -74,10 +74,10 @@ def run(names):
             for pid in meta["checks"]:
                 t0 = time.time()
                 r = sh(f"{VERIF}/check {pid} --tier quick --repo {wt}", cwd=VERIF)
-                lines = [l for l in r.stdout.split("\n") if l.startswith(("VIOLATION", "KNOWN-FINDING", "MACHINERY", "INTERNAL"))]
+                lines = [l for l in r.stdout.split("\n") if l.startswith(("VIOLATION", "KNOWN-FINDING", "MACHINERY", "INTERNAL", "SECOND-TIE"))]
                 viol = [l for l in lines if l.startswith("VIOLATION")]
                 if r.returncode == 0:
-                    st = "green"
+                    st = "green (second tie unavailable)" if any(l.startswith("SECOND-TIE-UNAVAILABLE") for l in lines) else "green"
                 elif viol and all("no-failing-input-found" in l for l in viol):
                     st = "broken-correspondence (no-failing-input-found)"
                 else:
